@@ -3,7 +3,7 @@
 use crate::apps;
 use crate::util::*;
 use ohkami::prelude::*;
-use ohkami::format::{Query, JSON, URLEncoded, Text};
+use ohkami::format::{Query, JSON, URLEncoded, Text, Multipart, File};
 use ohkami::openapi::Schema;
 use serde::Deserialize;
 use serde_json::{json, Value};
@@ -18,6 +18,11 @@ fn saw(params: Vec<String>, items: Vec<Option<String>>) -> &'static str { *SEEN.
 fn eb(b: &B) -> String { hex(format!("x={};s={}", b.x, hex(b.s.as_bytes())).as_bytes()) }
 fn eq(q: &Q) -> String { hex(format!("a={};b={}", q.a, q.b.as_ref().map(|s| hex(s.as_bytes())).unwrap_or_else(|| "-".into())).as_bytes()) }
 fn et(t: &str) -> String { hex(t.as_bytes()) }
+// a multipart form: a text field, an optional file, any number of files
+#[derive(Deserialize)] struct MF<'a> { title: String, #[serde(borrow)] icon: Option<File<'a>>, #[serde(borrow)] pics: Vec<File<'a>> }
+impl Schema for MF<'_> { fn schema() -> impl Into<ohkami::openapi::schema::SchemaRef> { ohkami::openapi::object() } }
+fn ef(f: &File) -> String { format!("{}/{}/{}", hex(f.filename.as_bytes()), hex(f.mimetype.as_bytes()), hex(f.content)) }
+fn em(m: &MF) -> String { hex(format!("t={};i={};p={}", hex(m.title.as_bytes()), m.icon.as_ref().map(ef).unwrap_or_else(|| "-".into()), m.pics.iter().map(ef).collect::<Vec<_>>().join(",")).as_bytes()) }
 
 macro_rules! int_handler { ($name:ident, $t:ty) => { async fn $name(a: $t) -> &'static str { saw(vec![format!("i:{a}")], vec![]) } } }
 int_handler!(h_u8, u8); int_handler!(h_u16, u16); int_handler!(h_u32, u32); int_handler!(h_u64, u64); int_handler!(h_usize, usize);
@@ -54,6 +59,8 @@ async fn c39((a, s): (u8, String), Query(q): Query<Q>, JSON(b): JSON<B>, t: Opti
 async fn c40((a, s): (u8, String), Query(q): Query<Q>, JSON(b): JSON<B>, f: Option<URLEncoded<B>>, t: Option<Text<String>>) -> &'static str { saw(p2(a, &s), it4(&q, &b, f, t)) }
 async fn c41(Query(q): Query<Q>, JSON(b): JSON<B>, t: Option<Text<String>>) -> &'static str { saw(vec![], it3(&q, &b, t)) }
 async fn c42(Query(q): Query<Q>, JSON(b): JSON<B>, f: Option<URLEncoded<B>>, t: Option<Text<String>>) -> &'static str { saw(vec![], it4(&q, &b, f, t)) }
+async fn h_multi(Multipart(m): Multipart<MF<'_>>) -> &'static str { saw(vec![], vec![Some(em(&m))]) }
+async fn h_optmulti(m: Option<Multipart<MF<'_>>>) -> &'static str { saw(vec![], vec![m.map(|Multipart(m)| em(&m))]) }
 async fn h_mounted(a: u8) -> &'static str { saw(vec![format!("i:{a}")], vec![]) }
 
 fn app() -> ohkami::testing::TestingOhkami {
@@ -64,6 +71,9 @@ fn app() -> ohkami::testing::TestingOhkami {
         "/t".By(Ohkami::new((
             "/p10/:a".GET(h_string), "/p11/:a".GET(h_str), "/p12/:a".GET(h_cow), "/p13/:a/:b".GET(h_two), "/p14/:a/:b".GET(h_two2),
             "/p15".GET(h_query), "/p16".POST(h_json), "/p17".POST(h_optjson), "/p18".POST(h_form), "/p19".POST(h_text), "/p20/:a".POST(h_all), "/p23".POST(h_opts),
+        ))),
+        "/f".By(Ohkami::new((
+            "/p43".POST(h_multi), "/p44".POST(h_optmulti),
         ))),
         "/q".By(Ohkami::new((
             "/p8/:a".GET(h_usize), "/p9/:a".GET(h_isize),
